@@ -46,11 +46,17 @@ CONSTANTS
     CdictRebuilt,   \* TRUE: comments_dict is a new dict in every parse                    (as written)
     IncResolve,     \* "join": an INCLUDE name is joined to the folder of the document (as written)
                     \* "chdir": the process changes into that folder, resolves, reads, changes back
+    DepthInArg,     \* TRUE: the INCLUDE nesting level is an argument of load_includes    (as written)
+                    \* FALSE: a counter on the Parser, raised / lowered around the recursive call
+    ExpCacheGlobal, \* FALSE: every Validator has its own expanded-schema cache          (as written)
+                    \* TRUE: one process-wide cache shared by all Validators / PrettyPrinters
+    TypesRoot,      \* FALSE: validate only reads the __type__ of a root               (as written)
     FormatOnCopy,   \* TRUE: the printer builds new values, never edits list items (as written)
     Record          \* TRUE: keep the call history and the schedule for emission
 
 VARIABLES
     pc, cur, ncalls,            \* per thread: program counter, running call, calls started
+    pdepth,                     \* Parser: include nesting counter (stays 0 in the code as written)
     buf, cdict, mt, icache,     \* Parser / MapfileToDict fields, per object (icache: include texts)
     raw, exp, sobj,             \* Validator fields per object; schema objects (pruned entries)
     args,                       \* the dictionaries the callers hold (the arguments)
@@ -58,7 +64,7 @@ VARIABLES
     running, sid,               \* scheduler: thread inside a segment; script id
     cwd                         \* process-wide state shared by all threads: the working directory
 
-vars == <<pc, cur, ncalls, buf, cdict, mt, icache, raw, exp, sobj, args, fin, hist, sched, running, sid, cwd>>
+vars == <<pc, cur, ncalls, pdepth, buf, cdict, mt, icache, raw, exp, sobj, args, fin, hist, sched, running, sid, cwd>>
 
 -----------------------------------------------------------------------------
 (* Documents                                                               *)
@@ -69,7 +75,11 @@ vars == <<pc, cur, ncalls, buf, cdict, mt, icache, raw, exp, sobj, args, fin, hi
 \* some : the object list searched by find* has items lacking the key "some"
 \* inc  : 0 = no INCLUDE; n = the document holds  INCLUDE "<name n>"  (a relative name, resolved
 \*        against the folder of the document);  dir : the folder the document lives in
-DocTable ==
+\* nest : what the included file holds - "none": no further INCLUDE; "missing": an INCLUDE of a file
+\*        that does not exist; "self": an INCLUDE of itself; "chain": a chain of five include files
+\* typed: the root dictionary has a __type__ key;  hand : a dictionary built by hand (never loaded)
+DocDefaults == [nest |-> "none", typed |-> TRUE, hand |-> FALSE]
+DocRaw ==
     <<[ntok |-> 3, fail |-> 0, com |-> {1, 3}, faults |-> {},     entries |-> {},             some |-> TRUE,  inc |-> 0, dir |-> 1],
       [ntok |-> 2, fail |-> 0, com |-> {},     faults |-> {"f1"}, entries |-> {},             some |-> FALSE, inc |-> 0, dir |-> 2],
       [ntok |-> 3, fail |-> 2, com |-> {1},    faults |-> {},     entries |-> {},             some |-> FALSE, inc |-> 0, dir |-> 3],
@@ -82,10 +92,20 @@ DocTable ==
       \* text (no file name) whose INCLUDE "<name 2>" is relative to the working directory of the process (dir 0)
       [ntok |-> 3, fail |-> 0, com |-> {2},    faults |-> {},     entries |-> {},             some |-> FALSE, inc |-> 2, dir |-> 0],
       \* a short document with a comment after its last node (line ntok + 1): no node claims it
-      [ntok |-> 2, fail |-> 0, com |-> {1, 3}, faults |-> {},     entries |-> {},             some |-> FALSE, inc |-> 0, dir |-> 3]>>
+      [ntok |-> 2, fail |-> 0, com |-> {1, 3}, faults |-> {},     entries |-> {},             some |-> FALSE, inc |-> 0, dir |-> 3],
+      \* documents that fail inside an included file, and one that needs the full nesting depth
+      [ntok |-> 3, fail |-> 0, com |-> {1},    faults |-> {},     entries |-> {},             some |-> FALSE, inc |-> 3, dir |-> 1, nest |-> "self"],
+      [ntok |-> 3, fail |-> 0, com |-> {},     faults |-> {},     entries |-> {},             some |-> FALSE, inc |-> 4, dir |-> 2, nest |-> "missing"],
+      [ntok |-> 3, fail |-> 0, com |-> {2},    faults |-> {},     entries |-> {},             some |-> FALSE, inc |-> 5, dir |-> 1, nest |-> "chain"],
+      \* a root dictionary built by hand: no __type__ key
+      [ntok |-> 3, fail |-> 0, com |-> {},     faults |-> {"f1"}, entries |-> {},             some |-> FALSE, inc |-> 0, dir |-> 3, typed |-> FALSE, hand |-> TRUE]>>
+DocTable == [i \in DOMAIN DocRaw |-> DocRaw[i] @@ DocDefaults]
 
-AllDocs   == 1..Len(DocTable)
-DictDocs  == {d \in AllDocs : DocTable[d].fail = 0}      \* documents that exist as dictionaries
+MaxNested == 5
+AllDocs   == 1..Len(DocRaw)
+ParsesOK(d) == DocTable[d].fail = 0 /\ DocTable[d].nest \notin {"missing", "self"}
+DictDocs  == {d \in AllDocs : ParsesOK(d)}               \* documents that exist as dictionaries
+LoadDocs  == {d \in AllDocs : ~DocTable[d].hand}         \* documents that exist as text / files
 Versions  == {0, 76, 80}                                 \* 0 = no version given
 Entries   == {"old", "anc"}                              \* "old": maxVersion 7.6, "anc": maxVersion 5.0
 InRange(e, v) == IF e = "old" THEN v <= 76 ELSE v <= 50
@@ -97,7 +117,7 @@ NoInc              == [dir |-> 0, name |-> 0]
 
 Cwd0            == 9                  \* the folder the process runs in
 \* which include files exist: <name 1> in folders 1 and 2, <name 2> in the working directory
-Exists(dir, name) == <<dir, name>> \in {<<1, 1>>, <<2, 1>>, <<Cwd0, 2>>}
+Exists(dir, name) == <<dir, name>> \in {<<1, 1>>, <<2, 1>>, <<Cwd0, 2>>, <<1, 3>>, <<2, 4>>, <<1, 5>>}
 
 Comment(d, k)   == [doc |-> d, line |-> k]
 \* comments a node claims: those up to the line of the last node
@@ -119,11 +139,14 @@ SObjs == {10 * t + n : t \in Threads, n \in 1..MaxPerThread}
 POf(t) == IF SharedP THEN (IF cur[t].com THEN 0 ELSE 99) ELSE t     \* Parser and MapfileToDict
 VOf(t) == IF SharedV THEN 0 ELSE t                                   \* Validator
 PVOf(t) == IF SharedV THEN 50 ELSE 50 + t                            \* PrettyPrinter's Validator
+\* whose expanded-schema cache a Validator / a PrettyPrinter's Validator uses
+XOf(t)  == IF ExpCacheGlobal THEN 0 ELSE VOf(t)
+PXOf(t) == IF ExpCacheGlobal THEN 0 ELSE PVOf(t)
 
 NoT    == [by |-> 0, com |-> FALSE]
 NoRet  == [k |-> "none"]
 Err    == [k |-> "error"]
-Heap0  == [order |-> "orig", extra |-> {}, lower |-> FALSE, vcom |-> FALSE, quoted |-> FALSE]
+Heap0  == [order |-> "orig", extra |-> {}, lower |-> FALSE, vcom |-> FALSE, quoted |-> FALSE, typed |-> TRUE]
 NoCall == [kind |-> "none", doc |-> 0, com |-> FALSE, ver |-> 0, key |-> "all", seams |-> {}, n |-> 0,
            snap |-> Heap0, att |-> {}, incl |-> NoInc, ipath |-> NoInc, saved |-> 0, sch |-> 0, hit |-> FALSE, keys |-> {}, ret |-> NoRet]
 
@@ -133,6 +156,8 @@ NoCall == [kind |-> "none", doc |-> 0, com |-> FALSE, ver |-> 0, key |-> "all", 
 F(c) ==
     CASE c.kind = "loads" ->
             IF DocTable[c.doc].fail # 0 THEN Err
+            ELSE IF DocTable[c.doc].nest = "missing" THEN [k |-> "ioerror"]
+            ELSE IF DocTable[c.doc].nest = "self" THEN [k |-> "toodeep"]
             ELSE [k |-> "dict", doc |-> c.doc, comments |-> IF c.com THEN CommentsOf(c.doc) ELSE {},
                   inc |-> IF DocTable[c.doc].inc = 0 THEN NoInc
                           ELSE Content(IF DocTable[c.doc].dir = 0 THEN Cwd0 ELSE DocTable[c.doc].dir,
@@ -164,8 +189,9 @@ Desc(kind, d, com, ver, key, seams) ==
     [kind |-> kind, doc |-> d, com |-> com, ver |-> ver, key |-> key, seams |-> seams]
 
 FreeMenu ==
-    {Desc("loads", d, c, 0, "all", {}) : d \in (IF "loads" \in Kinds THEN Docs ELSE {}), c \in BOOLEAN}
-    \cup {Desc(k, d, FALSE, 0, "all", {}) : k \in Kinds \cap {"dumps", "dumps_sep"}, d \in Docs \cap DictDocs}
+    {Desc("loads", d, c, 0, "all", {}) : d \in (IF "loads" \in Kinds THEN Docs \cap LoadDocs ELSE {}), c \in BOOLEAN}
+    \cup {Desc(k, d, FALSE, 0, "all", {}) : k \in Kinds \cap {"dumps", "dumps_sep"},
+                                            d \in {x \in Docs \cap DictDocs : DocTable[x].typed}}
     \cup {Desc(k, d, FALSE, v, "all", {}) : k \in Kinds \cap {"validate", "validate_addc"},
                                             d \in Docs \cap DictDocs, v \in Versions}
     \cup {m \in {Desc(k, d, FALSE, 0, key, {}) : k \in Kinds \cap QueryKinds, d \in Docs \cap DictDocs,
@@ -222,7 +248,7 @@ Start(t) ==
                                  !.snap = IF m.kind \in DictKinds THEN args[m.doc] ELSE Heap0]
          IN  Step(t, FirstPc(m.kind), c)
     /\ ncalls' = [ncalls EXCEPT ![t] = @ + 1]
-    /\ UNCHANGED <<buf, cdict, mt, icache, raw, exp, sobj, args, sid, cwd>>
+    /\ UNCHANGED <<pdepth, buf, cdict, mt, icache, raw, exp, sobj, args, sid, cwd>>
 
 -----------------------------------------------------------------------------
 (* loads = Parser(...).parse(text) ; MapfileToDict(...).transform(tree)    *)
@@ -234,6 +260,7 @@ LAlloc(t) ==                       \* Parser(), MapfileToDict(): new objects unl
             /\ cdict' = [cdict EXCEPT ![t] = {}]
             /\ mt' = [mt EXCEPT ![t] = NoT]
             /\ icache' = [icache EXCEPT ![t] = {}]
+    /\ pdepth' = IF SharedP THEN pdepth ELSE [pdepth EXCEPT ![t] = 0]
     /\ Step(t, "incl", cur[t])
     /\ UNCHANGED <<ncalls, raw, exp, sobj, args, sid, cwd>>
 
@@ -245,18 +272,34 @@ LIncl(t) ==
     /\ LET c == cur[t]
            d == DocTable[c.doc]
            folder == IF d.dir = 0 THEN cwd ELSE d.dir
+           base == IF DepthInArg THEN 0 ELSE pdepth[POf(t)]
        IN  IF d.inc = 0
            THEN /\ Step(t, "clear", c)
                 /\ UNCHANGED cwd
+           ELSE IF base >= MaxNested              \* "Maximum nested include exceeded"
+           THEN /\ Step(t, "ret", [c EXCEPT !.ret = [k |-> "toodeep"]])
+                /\ UNCHANGED cwd
            ELSE /\ Step(t, "iresolve", [c EXCEPT !.saved = cwd, !.ipath = Content(folder, d.inc)])
                 /\ cwd' = IF IncResolve = "chdir" THEN folder ELSE cwd
-    /\ UNCHANGED <<ncalls, buf, cdict, mt, icache, raw, exp, sobj, args, sid>>
+    /\ UNCHANGED <<ncalls, pdepth, buf, cdict, mt, icache, raw, exp, sobj, args, sid>>
 
 LResolve(t) ==                     \* the absolute path of the include file
     /\ pc[t] = "iresolve"
     /\ LET c == cur[t]
        IN  Step(t, "iread", IF IncResolve = "chdir" THEN [c EXCEPT !.ipath = Content(cwd, c.ipath.name)] ELSE c)
-    /\ UNCHANGED <<ncalls, buf, cdict, mt, icache, raw, exp, sobj, args, sid, cwd>>
+    /\ UNCHANGED <<ncalls, pdepth, buf, cdict, mt, icache, raw, exp, sobj, args, sid, cwd>>
+
+\* what the nested INCLUDEs of the file just read lead to, starting one level below the current one:
+\* k = outcome, left = the value an instance counter is left with
+After(t) ==
+    LET base == IF DepthInArg THEN 0 ELSE pdepth[POf(t)]
+        nest == DocTable[cur[t].doc].nest
+    IN  CASE nest = "none"    -> [k |-> "ok", left |-> base]
+          [] nest = "missing" -> IF base + 1 >= MaxNested THEN [k |-> "toodeep", left |-> base + 1]
+                                 ELSE [k |-> "ioerror", left |-> base + 1]
+          [] nest = "self"    -> [k |-> "toodeep", left |-> MaxNested]
+          [] OTHER            -> IF base + 4 >= MaxNested THEN [k |-> "toodeep", left |-> MaxNested]
+                                 ELSE [k |-> "ok", left |-> base]
 
 LRead(t) ==                        \* include_text = self.open_file(inc_file_path)
     /\ pc[t] = "iread"
@@ -270,17 +313,23 @@ LRead(t) ==                        \* include_text = self.open_file(inc_file_pat
               ELSE IF ~Exists(c.ipath.dir, c.ipath.name)
               THEN /\ Step(t, "ret", [c EXCEPT !.ret = [k |-> "ioerror"]])
                    /\ UNCHANGED icache
-              ELSE /\ Step(t, "clear", [c EXCEPT !.incl = c.ipath])
+              ELSE /\ Step(t, IF After(t).k = "ok" THEN "clear" ELSE "ret",
+                           IF After(t).k = "ok" THEN [c EXCEPT !.incl = c.ipath]
+                           ELSE [c EXCEPT !.ret = [k |-> After(t).k]])
                    /\ icache' = IF IncCache = "by_name"
                                 THEN [icache EXCEPT ![p] = @ \cup {[name |-> c.ipath.name, content |-> c.ipath]}]
                                 ELSE icache
+           \* the recursive call load_includes(include_text) runs one level deeper; an exception
+           \* inside it skips the lowering of an instance counter
+           /\ pdepth' = IF ~DepthInArg /\ ~(IncCache = "by_name" /\ kept # {}) /\ Exists(c.ipath.dir, c.ipath.name)
+                        THEN [pdepth EXCEPT ![p] = After(t).left] ELSE pdepth
     /\ UNCHANGED <<ncalls, buf, cdict, mt, raw, exp, sobj, args, sid>>
 
 LClear(t) ==                       \* self._comments[:] = []
     /\ pc[t] = "clear"
     /\ buf' = IF ClearsBuf THEN [buf EXCEPT ![POf(t)] = <<>>] ELSE buf
     /\ Step(t, "lex1", cur[t])
-    /\ UNCHANGED <<ncalls, cdict, mt, icache, raw, exp, sobj, args, sid, cwd>>
+    /\ UNCHANGED <<ncalls, pdepth, cdict, mt, icache, raw, exp, sobj, args, sid, cwd>>
 
 LLex(t, k) ==                      \* one token; the lexer callback appends a comment to the buffer
     /\ pc[t] = LexPc(k)
@@ -293,7 +342,7 @@ LLex(t, k) ==                      \* one token; the lexer callback appends a co
            /\ IF d.fail = k
               THEN Step(t, "ret", [c EXCEPT !.ret = Err])          \* parse error: buffer left as it is
               ELSE Step(t, IF k < d.ntok THEN LexPc(k + 1) ELSE IF c.com THEN "cdict" ELSE "tnew", c)
-    /\ UNCHANGED <<ncalls, cdict, mt, icache, raw, exp, sobj, args, sid, cwd>>
+    /\ UNCHANGED <<ncalls, pdepth, cdict, mt, icache, raw, exp, sobj, args, sid, cwd>>
 
 \* comments_dict[c.line] = c.value for c in _comments: a later comment on a line replaces an earlier
 LastPerLine(b) == {b[i] : i \in {j \in 1..Len(b) : \A h \in (j + 1)..Len(b) : b[h].line # b[j].line}}
@@ -306,20 +355,20 @@ LCdict(t) ==
            old == IF CdictRebuilt THEN {} ELSE {x \in cdict[POf(t)] : \A y \in new : y.line # x.line}
        IN  cdict' = [cdict EXCEPT ![POf(t)] = new \cup old]
     /\ Step(t, "assign", cur[t])
-    /\ UNCHANGED <<ncalls, buf, mt, icache, raw, exp, sobj, args, sid, cwd>>
+    /\ UNCHANGED <<ncalls, pdepth, buf, mt, icache, raw, exp, sobj, args, sid, cwd>>
 
 LAssign(t) ==                      \* _assign_comments pops every comment up to the last node's line
     /\ pc[t] = "assign"
     /\ LET take == {x \in cdict[POf(t)] : x.line <= DocTable[cur[t].doc].ntok}
        IN  /\ cdict' = [cdict EXCEPT ![POf(t)] = @ \ take]
            /\ Step(t, "tnew", [cur[t] EXCEPT !.att = take])
-    /\ UNCHANGED <<ncalls, buf, mt, icache, raw, exp, sobj, args, sid, cwd>>
+    /\ UNCHANGED <<ncalls, pdepth, buf, mt, icache, raw, exp, sobj, args, sid, cwd>>
 
 LTnew(t) ==                        \* self.mapfile_transformer = transformer_class(...)
     /\ pc[t] = "tnew"
     /\ mt' = [mt EXCEPT ![POf(t)] = [by |-> t, com |-> cur[t].com]]
     /\ Step(t, "trun", cur[t])
-    /\ UNCHANGED <<ncalls, buf, cdict, icache, raw, exp, sobj, args, sid, cwd>>
+    /\ UNCHANGED <<ncalls, pdepth, buf, cdict, icache, raw, exp, sobj, args, sid, cwd>>
 
 LTrun(t) ==                        \* return self.mapfile_transformer.transform(tree)
     /\ pc[t] = "trun"
@@ -327,7 +376,7 @@ LTrun(t) ==                        \* return self.mapfile_transformer.transform(
        IN  Step(t, "ret", [c EXCEPT !.ret = [k |-> "dict", doc |-> c.doc,
                                              comments |-> IF mt[POf(t)].com THEN c.att ELSE {},
                                              inc |-> c.incl]])
-    /\ UNCHANGED <<ncalls, buf, cdict, mt, icache, raw, exp, sobj, args, sid, cwd>>
+    /\ UNCHANGED <<ncalls, pdepth, buf, cdict, mt, icache, raw, exp, sobj, args, sid, cwd>>
 
 -----------------------------------------------------------------------------
 (* dumps = PrettyPrinter(...).pprint(d)                                    *)
@@ -339,13 +388,13 @@ DAlloc(t) ==
     /\ pc[t] = "alloc" /\ cur[t].kind \in {"dumps", "dumps_sep"}
     /\ IF SharedV THEN UNCHANGED <<raw, exp>>
        ELSE /\ raw' = [raw EXCEPT ![PVOf(t)] = {}]
-            /\ exp' = [exp EXCEPT ![PVOf(t)] = {}]
+            /\ exp' = IF ExpCacheGlobal THEN exp ELSE [exp EXCEPT ![PVOf(t)] = {}]
     /\ Step(t, "schema", cur[t])
-    /\ UNCHANGED <<ncalls, buf, cdict, mt, icache, sobj, args, sid, cwd>>
+    /\ UNCHANGED <<ncalls, pdepth, buf, cdict, mt, icache, sobj, args, sid, cwd>>
 
 DSchema(t) ==                      \* self.validator.get_expanded_schema(type_): unversioned entry
     /\ pc[t] = "schema"
-    /\ LET v == PVOf(t)
+    /\ LET v == PXOf(t)
            key == <<"map", 0>>
            got == Lookup(v, key)
        IN  IF got # {}
@@ -354,7 +403,7 @@ DSchema(t) ==                      \* self.validator.get_expanded_schema(type_):
            ELSE /\ sobj' = [sobj EXCEPT ![NewS(t)] = {}]
                 /\ exp' = [exp EXCEPT ![v] = @ \cup {[key |-> key, obj |-> NewS(t)]}]
                 /\ Step(t, "format", [cur[t] EXCEPT !.sch = NewS(t)])
-    /\ UNCHANGED <<ncalls, buf, cdict, mt, icache, raw, args, sid, cwd>>
+    /\ UNCHANGED <<ncalls, pdepth, buf, cdict, mt, icache, raw, args, sid, cwd>>
 
 DFormat(t) ==
     /\ pc[t] = "format"
@@ -370,7 +419,7 @@ DFormat(t) ==
                                                 extra |-> h.extra, lower |-> h.lower, vcom |-> h.vcom,
                                                 quoted |-> h.quoted,
                                                 removed |-> sobj[c.sch]]])
-    /\ UNCHANGED <<ncalls, buf, cdict, mt, icache, raw, exp, sobj, sid, cwd>>
+    /\ UNCHANGED <<ncalls, pdepth, buf, cdict, mt, icache, raw, exp, sobj, sid, cwd>>
 
 -----------------------------------------------------------------------------
 (* validate = Validator().validate(d, version=v)                           *)
@@ -379,40 +428,42 @@ VAlloc(t) ==
     /\ pc[t] = "alloc" /\ cur[t].kind \in {"validate", "validate_addc"}
     /\ IF SharedV THEN UNCHANGED <<raw, exp>>
        ELSE /\ raw' = [raw EXCEPT ![VOf(t)] = {}]
-            /\ exp' = [exp EXCEPT ![VOf(t)] = {}]
+            /\ exp' = IF ExpCacheGlobal THEN exp ELSE [exp EXCEPT ![VOf(t)] = {}]
+    \* mappyfile.validate picks the schema by root.get("__type__", "map"): a read
+    /\ args' = IF TypesRoot THEN [args EXCEPT ![cur[t].doc].typed = TRUE] ELSE args
     /\ Step(t, IF cur[t].ver = 0 THEN "raw" ELSE "xchk", cur[t])
-    /\ UNCHANGED <<ncalls, buf, cdict, mt, icache, sobj, args, sid, cwd>>
+    /\ UNCHANGED <<ncalls, pdepth, buf, cdict, mt, icache, sobj, sid, cwd>>
 
 VRaw(t) ==                         \* get_schema_validator: raw schema file cache, registry
     /\ pc[t] = "raw"
     /\ raw' = [raw EXCEPT ![VOf(t)] = @ \cup {"map"}]
     /\ Step(t, "lower", cur[t])
-    /\ UNCHANGED <<ncalls, buf, cdict, mt, icache, exp, sobj, args, sid, cwd>>
+    /\ UNCHANGED <<ncalls, pdepth, buf, cdict, mt, icache, exp, sobj, args, sid, cwd>>
 
 CacheKey(ver) == <<"map", IF KeyByVersion THEN ver ELSE 1>>
 
 VXchk(t) ==                        \* if cache_schema_name not in self.expanded_schemas
     /\ pc[t] = "xchk"
-    /\ LET got == Lookup(VOf(t), CacheKey(cur[t].ver))
+    /\ LET got == Lookup(XOf(t), CacheKey(cur[t].ver))
        IN  IF got # {}
            THEN /\ Step(t, "xins", [cur[t] EXCEPT !.hit = TRUE, !.sch = (CHOOSE e \in got : TRUE).obj])
                 /\ UNCHANGED sobj
            ELSE /\ sobj' = [sobj EXCEPT ![NewS(t)] = {}]              \* jsonref.load: a new object
                 /\ Step(t, "xins", [cur[t] EXCEPT !.hit = FALSE, !.sch = NewS(t)])
-    /\ UNCHANGED <<ncalls, buf, cdict, mt, icache, raw, exp, args, sid, cwd>>
+    /\ UNCHANGED <<ncalls, pdepth, buf, cdict, mt, icache, raw, exp, args, sid, cwd>>
 
 VXins(t) ==                        \* self.expanded_schemas[cache_schema_name] = jsn_schema
     /\ pc[t] = "xins"
     /\ LET key == CacheKey(cur[t].ver)
        IN  exp' = IF cur[t].hit THEN exp
-                  ELSE [exp EXCEPT ![VOf(t)] = (@ \ Lookup(VOf(t), key)) \cup {[key |-> key, obj |-> cur[t].sch]}]
+                  ELSE [exp EXCEPT ![XOf(t)] = (@ \ Lookup(XOf(t), key)) \cup {[key |-> key, obj |-> cur[t].sch]}]
     /\ Step(t, "pkeys", cur[t])
-    /\ UNCHANGED <<ncalls, buf, cdict, mt, icache, raw, sobj, args, sid, cwd>>
+    /\ UNCHANGED <<ncalls, pdepth, buf, cdict, mt, icache, raw, sobj, args, sid, cwd>>
 
 VPkeys(t) ==                       \* keys_copy = list(properties.keys())
     /\ pc[t] = "pkeys"
     /\ Step(t, "prune1", [cur[t] EXCEPT !.keys = Entries \ sobj[cur[t].sch]])
-    /\ UNCHANGED <<ncalls, buf, cdict, mt, icache, raw, exp, sobj, args, sid, cwd>>
+    /\ UNCHANGED <<ncalls, pdepth, buf, cdict, mt, icache, raw, exp, sobj, args, sid, cwd>>
 
 \* for key in keys_copy: v = properties[key]; del properties[key] when out of range - in place, on
 \* the cached object.  A key deleted by somebody else since the copy was taken: KeyError.
@@ -425,13 +476,13 @@ VPrune(t, here, e, next) ==
            ELSE /\ sobj' = IF e \in c.keys /\ ~InRange(e, c.ver) THEN [sobj EXCEPT ![c.sch] = @ \cup {e}]
                            ELSE sobj
                 /\ Step(t, next, c)
-    /\ UNCHANGED <<ncalls, buf, cdict, mt, icache, raw, exp, args, sid, cwd>>
+    /\ UNCHANGED <<ncalls, pdepth, buf, cdict, mt, icache, raw, exp, args, sid, cwd>>
 
 VLower(t) ==                       \* lowercase_dict = self.convert_lowercase(d): a copy
     /\ pc[t] = "lower"
     /\ args' = IF LowerOnCopy THEN args ELSE [args EXCEPT ![cur[t].doc].lower = TRUE]
     /\ Step(t, "judge", cur[t])
-    /\ UNCHANGED <<ncalls, buf, cdict, mt, icache, raw, exp, sobj, sid, cwd>>
+    /\ UNCHANGED <<ncalls, pdepth, buf, cdict, mt, icache, raw, exp, sobj, sid, cwd>>
 
 VJudge(t) ==
     /\ pc[t] = "judge"
@@ -441,7 +492,7 @@ VJudge(t) ==
        IN  /\ args' = IF c.kind = "validate_addc" /\ errs # {} THEN [args EXCEPT ![c.doc].vcom = TRUE]
                       ELSE args
            /\ Step(t, "ret", [c EXCEPT !.ret = [k |-> "msgs", doc |-> c.doc, errs |-> errs]])
-    /\ UNCHANGED <<ncalls, buf, cdict, mt, icache, raw, exp, sobj, sid, cwd>>
+    /\ UNCHANGED <<ncalls, pdepth, buf, cdict, mt, icache, raw, exp, sobj, sid, cwd>>
 
 -----------------------------------------------------------------------------
 (* find / findall / findunique / findkey                                   *)
@@ -453,12 +504,12 @@ QRun(t) ==
                       THEN [args EXCEPT ![c.doc].extra = @ \cup {"some"}] ELSE args
            /\ Step(t, "ret", [c EXCEPT !.ret = [k |-> "items", doc |-> c.doc, key |-> c.key,
                                                 kind |-> c.kind]])
-    /\ UNCHANGED <<ncalls, buf, cdict, mt, icache, raw, exp, sobj, sid, cwd>>
+    /\ UNCHANGED <<ncalls, pdepth, buf, cdict, mt, icache, raw, exp, sobj, sid, cwd>>
 
 Return(t) ==
     /\ pc[t] = "ret"
     /\ Step(t, "idle", cur[t])
-    /\ UNCHANGED <<ncalls, buf, cdict, mt, icache, raw, exp, sobj, args, sid, cwd>>
+    /\ UNCHANGED <<ncalls, pdepth, buf, cdict, mt, icache, raw, exp, sobj, args, sid, cwd>>
 
 -----------------------------------------------------------------------------
 
@@ -486,7 +537,8 @@ Init ==
     /\ raw = [v \in VObjs |-> {}]
     /\ exp = [v \in VObjs |-> {}]
     /\ sobj = [s \in SObjs |-> {}]
-    /\ args = [d \in DictDocs |-> Heap0]
+    /\ args = [d \in DictDocs |-> [Heap0 EXCEPT !.typed = DocTable[d].typed]]
+    /\ pdepth = [p \in PObjs |-> 0]
     /\ fin = [t \in Threads |-> NoFin]
     /\ cwd = Cwd0
     /\ hist = <<>>
